@@ -385,7 +385,7 @@ class LogCheck(Check):
         else:
             for c in single_statement_space():
                 yield c, "stmt-exhaustive"
-            nprog, nseq = 200000, 100000
+            nprog, nseq = 600000, 300000
         for _ in range(nprog):
             yield rand_program(rng), "program-rand"
         for _ in range(nseq):
